@@ -898,7 +898,7 @@ PROPS = {
     ),
     "C15": dict(
         modules=['C15', 'C15Restart', 'C15Call', 'LiftRestart'],
-        theorems=['c15_accounting_exact', 'c15_over_limit_only_pinned', 'c15_drained', 'Step.live_of_journal', 'c15_restart_step', 'c15_after_restart', 'cycles_cacheInv', 'c15_accounting_exact_with_restarts', 'cycleOps_append', 'CleanCycles.prefix', 'RefLog.run_prefix_some', 'c15_accounting_exact_every_point', 'c15_append_call_unchanged_or_only_pinned', 'c15_append_call_inserted_iff', 'c15_append_call_only_pinned', 'c15_append_call_first_accepted_only_pinned', 'c15_append_call_first_refused_unchanged', 'c15_call_boundary_unchanged', 'c15_nonappend_cache_subset', 'c15_meta_cache_unchanged', 'c15_sys_step_append_only_pinned', 'c15_sys_step_append_store', 'c15_sys_limits_configured', 'c15_sys_append_only_pinned', 'c15_sys_append_only_pinned_with_restarts', 'lift_oldSynced_spec', 'lift_crashInv_clean_restart', 'lift_oldSynced_of_single_file', 'lift_inv_spec', 'lift_inv_fresh', 'lift_inv_history', 'lift_inv_restart', 'lift_inv_recovered', 'c15_accounting_exact_after_recovery_of_crashInv', 'c15_accounting_exact_after_recovery_history_of_crashInv', 'c15_accounting_exact_after_recovery', 'c15_accounting_exact_after_recovery_history', 'c15_append_only_pinned_after_recovery', 'c08_gap_free_suffix_of_crashInv', 'c08_unlinks_oldest_first_of_crashInv', 'c08_index_entries_in_linked_chunks_of_crashInv', 'c08_unlink_only_after_purge_durable_of_crashInv', 'c08_flushed_idle_gone_of_crashInv', 'c08_clean_files_are_live_chunks_of_crashInv', 'c08_restarted_files_are_live_chunks', 'c08_recovered_files_are_live_chunks', 'lift_clean_holds_no_request', 'c04_positive_callback_means_durable_of_crashInv', 'ReachLIFT', 'lift_csys_keys', 'lift_reach_invariant', 'c11_journal_invariant_reach', 'c15_accounting_exact_reach', 'c08_flushed_idle_gone_reach', 'c04_positive_callback_means_durable_reach', 'liftUnsyncedExample', 'liftUnsyncedRestarted', 'lift_restart_forgets_unsynced_old_chunk', 'lift_c05Example_wf', 'lift_c05Example_inv', 'lift_csys_last', 'lift_c05Recovered_inv', 'liftRestarted', 'liftReachExample', 'lift_reach_c05Recovered', 'lift_reach_restarted', 'lift_reach_example', 'crashInv_clean_restart_LIFT', 'recover_cacheInv_LIFT', 'run_keys_LIFT'],
+        theorems=['c15_accounting_exact', 'c15_over_limit_only_pinned', 'c15_drained', 'Step.live_of_journal', 'c15_restart_step', 'c15_after_restart', 'cycles_cacheInv', 'c15_accounting_exact_with_restarts', 'cycleOps_append', 'CleanCycles.prefix', 'RefLog.run_prefix_some', 'c15_accounting_exact_every_point', 'c15_append_call_unchanged_or_only_pinned', 'c15_append_call_inserted_iff', 'c15_append_call_only_pinned', 'c15_append_call_first_accepted_only_pinned', 'c15_append_call_first_refused_unchanged', 'c15_call_boundary_unchanged', 'c15_nonappend_cache_subset', 'c15_meta_cache_unchanged', 'c15_sys_step_append_only_pinned', 'c15_sys_step_append_store', 'c15_sys_limits_configured', 'c15_sys_append_only_pinned', 'c15_sys_append_only_pinned_with_restarts', 'lift_oldSynced_spec', 'lift_crashInv_clean_restart', 'lift_oldSynced_of_single_file', 'lift_inv_spec', 'lift_inv_fresh', 'lift_inv_history', 'lift_inv_restart', 'lift_inv_recovered', 'c15_accounting_exact_after_recovery_of_crashInv', 'c15_accounting_exact_after_recovery_history_of_crashInv', 'c15_accounting_exact_after_recovery', 'c15_accounting_exact_after_recovery_history', 'c15_append_only_pinned_after_recovery', 'c08_gap_free_suffix_of_crashInv', 'c08_unlinks_oldest_first_of_crashInv', 'c08_index_entries_in_linked_chunks_of_crashInv', 'c08_unlink_only_after_purge_durable_of_crashInv', 'c08_flushed_idle_gone_of_crashInv', 'c08_clean_files_are_live_chunks_of_crashInv', 'c08_restarted_files_are_live_chunks', 'c08_recovered_files_are_live_chunks', 'lift_clean_holds_no_request', 'c04_positive_callback_means_durable_of_crashInv', 'ReachLIFT', 'lift_csys_keys', 'lift_reach_invariant', 'c11_journal_invariant_reach', 'c15_accounting_exact_reach', 'c08_flushed_idle_gone_reach', 'c04_positive_callback_means_durable_reach', 'liftUnsyncedExample', 'liftUnsyncedRestarted', 'liftUnsyncedMore', 'lift_restart_syncs_old_chunks', 'lift_c05Example_wf', 'lift_c05Example_inv', 'lift_csys_last', 'lift_c05Recovered_inv', 'liftRestarted', 'liftReachExample', 'lift_reach_c05Recovered', 'lift_reach_restarted', 'lift_reach_example', 'crashInv_clean_restart_LIFT', 'recover_cacheInv_LIFT', 'run_keys_LIFT'],
         gen=scripts_c15, project=proj_c15, oracle=oracle_c15,
         explanation="cache accounting invariant",
         assumptions=OS_ASSUMPTIONS,
@@ -1197,8 +1197,12 @@ class Trace:
                     if cid not in self.files and cid not in self.stray:
                         self.files[cid] = dict(written=ln, synced=du, linked=True, base=ln)
             if w == "open" and line == "open ok":
-                # files seen for the first time keep their seeded counts
-                pass
+                # files seen for the first time keep their seeded counts; the journal of the new
+                # instance ends where its files end (bytes a previous instance never handed to its
+                # worker are gone)
+                live = [cid + f["written"] for cid, f in self.files.items() if f["linked"]]
+                if live:
+                    self.end = max(live)
             if line.startswith("stat "):
                 m = re.search(r"open=(\d+):(\d+):(\d+):(\d+):", line)
                 if m:
@@ -1558,7 +1562,8 @@ def scripts_c04(tier, rng):
     out, stats = [], {}
     for i in range(n):
         g = gen.HistGen(rng.fork(), max_ops=30, worker_steps=True, faults=(i % 2 == 0), queries=(),
-                        flush_prob=(1, 2), weights=dict(append=40, purge=6, truncate=4, ud=3, vote=6, commit=6))
+                        restarts=(i % 6 == 4), ack_before_restart=False,
+                        flush_prob=(1, 2), weights=dict(append=40, purge=6, truncate=4, ud=3, vote=6, commit=6, restart=4))
         lines = with_stat_after_writes(g.script())
         lines.insert(2, "stat")
         if i % 5 == 3:
@@ -1579,6 +1584,18 @@ def scripts_c04(tier, rng):
         lines += ["widle", "stat", "dir"]
         out.append((f"c04big_{j}", lines))
     stats["large-pipelined-batch"] = 1 if tier == "quick" else 3
+    # a failed sync of an older chunk file, then a clean restart: the next acknowledged flush of the new
+    # instance still vouches for everything journalled before it, the older file included
+    for j in range(8 if tier == "quick" else 40):
+        mr = 2 + rng.below(3)
+        n = mr + rng.below(mr + 1)
+        k = rng.below(7)
+        lines = [f"cfg mr={mr}", "open", "stat", "app " + " ".join(f"1,{x},{gen.rnd_bytes_token(rng, [1, 7])}" for x in range(n)),
+                 "stat", "flush 3"] + ["w ok"] * min(k, 2) + ["wfsall", "stat", "dir",
+                 "drop", f"cfg mr={mr}", "open", "stat",
+                 "commit 1 0", "stat", "flush 4", "widle", "stat", "dir", f"app 1,{n},aa", "stat", "flush 5", "widle", "stat", "dir"]
+        out.append((f"c04eiorestart_{j}", lines))
+    stats["failed-sync-then-restart"] = 8 if tier == "quick" else 40
     # more requests than the bounded queue and one worker batch hold (1024), against a slow worker;
     # then an acknowledged flush: everything journalled must be on disk
     for j in range(1 if tier == "quick" else 3):
@@ -1729,15 +1746,15 @@ def scripts_c02(tier, rng):
 
 
 PROPS.update({
-    "C04": dict(modules=['C04', 'C04Sys', 'LiftRestart'], theorems=['c04_wf_invariant', 'c04_covered_step', 'c04_dying_step', 'c04_covered_rotate', 'c04_covered_flush', 'c04_ack_only_from_syncNew', 'c04_ack_means_synced', 'c04_negative_after_failed_sync', 'c04_step_cbs', 'c04_cbs_in_request_order', 'c04_cb_at_most_once', 'c04_exactly_once_no_fault_measure', 'c04_exactly_once_no_fault', 'c04_wf_reachable', 'c04_covered_sys', 'c04_positive_callback_means_durable', 'lift_oldSynced_spec', 'lift_crashInv_clean_restart', 'lift_oldSynced_of_single_file', 'lift_inv_spec', 'lift_inv_fresh', 'lift_inv_history', 'lift_inv_restart', 'lift_inv_recovered', 'c15_accounting_exact_after_recovery_of_crashInv', 'c15_accounting_exact_after_recovery_history_of_crashInv', 'c15_accounting_exact_after_recovery', 'c15_accounting_exact_after_recovery_history', 'c15_append_only_pinned_after_recovery', 'c08_gap_free_suffix_of_crashInv', 'c08_unlinks_oldest_first_of_crashInv', 'c08_index_entries_in_linked_chunks_of_crashInv', 'c08_unlink_only_after_purge_durable_of_crashInv', 'c08_flushed_idle_gone_of_crashInv', 'c08_clean_files_are_live_chunks_of_crashInv', 'c08_restarted_files_are_live_chunks', 'c08_recovered_files_are_live_chunks', 'lift_clean_holds_no_request', 'c04_positive_callback_means_durable_of_crashInv', 'ReachLIFT', 'lift_csys_keys', 'lift_reach_invariant', 'c11_journal_invariant_reach', 'c15_accounting_exact_reach', 'c08_flushed_idle_gone_reach', 'c04_positive_callback_means_durable_reach', 'liftUnsyncedExample', 'liftUnsyncedRestarted', 'lift_restart_forgets_unsynced_old_chunk', 'lift_c05Example_wf', 'lift_c05Example_inv', 'lift_csys_last', 'lift_c05Recovered_inv', 'liftRestarted', 'liftReachExample', 'lift_reach_c05Recovered', 'lift_reach_restarted', 'lift_reach_example', 'crashInv_clean_restart_LIFT', 'recover_cacheInv_LIFT', 'run_keys_LIFT'], gen=scripts_c04, project=proj_events, oracle=oracle_c04,
+    "C04": dict(modules=['C04', 'C04Sys', 'LiftRestart'], theorems=['c04_wf_invariant', 'c04_covered_step', 'c04_dying_step', 'c04_covered_rotate', 'c04_covered_flush', 'c04_ack_only_from_syncNew', 'c04_ack_means_synced', 'c04_negative_after_failed_sync', 'c04_step_cbs', 'c04_cbs_in_request_order', 'c04_cb_at_most_once', 'c04_exactly_once_no_fault_measure', 'c04_exactly_once_no_fault', 'c04_wf_reachable', 'c04_covered_sys', 'c04_positive_callback_means_durable', 'lift_oldSynced_spec', 'lift_crashInv_clean_restart', 'lift_oldSynced_of_single_file', 'lift_inv_spec', 'lift_inv_fresh', 'lift_inv_history', 'lift_inv_restart', 'lift_inv_recovered', 'c15_accounting_exact_after_recovery_of_crashInv', 'c15_accounting_exact_after_recovery_history_of_crashInv', 'c15_accounting_exact_after_recovery', 'c15_accounting_exact_after_recovery_history', 'c15_append_only_pinned_after_recovery', 'c08_gap_free_suffix_of_crashInv', 'c08_unlinks_oldest_first_of_crashInv', 'c08_index_entries_in_linked_chunks_of_crashInv', 'c08_unlink_only_after_purge_durable_of_crashInv', 'c08_flushed_idle_gone_of_crashInv', 'c08_clean_files_are_live_chunks_of_crashInv', 'c08_restarted_files_are_live_chunks', 'c08_recovered_files_are_live_chunks', 'lift_clean_holds_no_request', 'c04_positive_callback_means_durable_of_crashInv', 'ReachLIFT', 'lift_csys_keys', 'lift_reach_invariant', 'c11_journal_invariant_reach', 'c15_accounting_exact_reach', 'c08_flushed_idle_gone_reach', 'c04_positive_callback_means_durable_reach', 'liftUnsyncedExample', 'liftUnsyncedRestarted', 'liftUnsyncedMore', 'lift_restart_syncs_old_chunks', 'lift_c05Example_wf', 'lift_c05Example_inv', 'lift_csys_last', 'lift_c05Recovered_inv', 'liftRestarted', 'liftReachExample', 'lift_reach_c05Recovered', 'lift_reach_restarted', 'lift_reach_example', 'crashInv_clean_restart_LIFT', 'recover_cacheInv_LIFT', 'run_keys_LIFT'], gen=scripts_c04, project=proj_events, oracle=oracle_c04,
                 explanation="flush acknowledgement soundness", assumptions=OS_ASSUMPTIONS),
-    "C08": dict(modules=['C08', 'C08Sys', 'LiftRestart'], theorems=['c08_unlink_only_after_good_sync', 'c08_removal_starts_only_after_good_sync', 'c08_lastSyncFailed', 'c08_unlink_in_list_order', 'c08_postponed_in_request_order', 'c08_popObsolete_prefix', 'c08_abut_spec', 'c08_remaining_files_gap_free_suffix', 'c08_unlinks_oldest_first', 'c08_index_entries_in_linked_chunks', 'c08_unlink_only_after_purge_durable', 'c08_no_failed_sync_clean', 'c08_postponed_only_after_failed_sync', 'c08_flushed_idle_gone_always', 'c08_flushed_idle_gone', 'lift_oldSynced_spec', 'lift_crashInv_clean_restart', 'lift_oldSynced_of_single_file', 'lift_inv_spec', 'lift_inv_fresh', 'lift_inv_history', 'lift_inv_restart', 'lift_inv_recovered', 'c15_accounting_exact_after_recovery_of_crashInv', 'c15_accounting_exact_after_recovery_history_of_crashInv', 'c15_accounting_exact_after_recovery', 'c15_accounting_exact_after_recovery_history', 'c15_append_only_pinned_after_recovery', 'c08_gap_free_suffix_of_crashInv', 'c08_unlinks_oldest_first_of_crashInv', 'c08_index_entries_in_linked_chunks_of_crashInv', 'c08_unlink_only_after_purge_durable_of_crashInv', 'c08_flushed_idle_gone_of_crashInv', 'c08_clean_files_are_live_chunks_of_crashInv', 'c08_restarted_files_are_live_chunks', 'c08_recovered_files_are_live_chunks', 'lift_clean_holds_no_request', 'c04_positive_callback_means_durable_of_crashInv', 'ReachLIFT', 'lift_csys_keys', 'lift_reach_invariant', 'c11_journal_invariant_reach', 'c15_accounting_exact_reach', 'c08_flushed_idle_gone_reach', 'c04_positive_callback_means_durable_reach', 'liftUnsyncedExample', 'liftUnsyncedRestarted', 'lift_restart_forgets_unsynced_old_chunk', 'lift_c05Example_wf', 'lift_c05Example_inv', 'lift_csys_last', 'lift_c05Recovered_inv', 'liftRestarted', 'liftReachExample', 'lift_reach_c05Recovered', 'lift_reach_restarted', 'lift_reach_example', 'crashInv_clean_restart_LIFT', 'recover_cacheInv_LIFT', 'run_keys_LIFT'], gen=scripts_c08, project=proj_c08, oracle=oracle_c08,
+    "C08": dict(modules=['C08', 'C08Sys', 'LiftRestart'], theorems=['c08_unlink_only_after_good_sync', 'c08_removal_starts_only_after_good_sync', 'c08_lastSyncFailed', 'c08_unlink_in_list_order', 'c08_postponed_in_request_order', 'c08_popObsolete_prefix', 'c08_abut_spec', 'c08_remaining_files_gap_free_suffix', 'c08_unlinks_oldest_first', 'c08_index_entries_in_linked_chunks', 'c08_unlink_only_after_purge_durable', 'c08_no_failed_sync_clean', 'c08_postponed_only_after_failed_sync', 'c08_flushed_idle_gone_always', 'c08_flushed_idle_gone', 'lift_oldSynced_spec', 'lift_crashInv_clean_restart', 'lift_oldSynced_of_single_file', 'lift_inv_spec', 'lift_inv_fresh', 'lift_inv_history', 'lift_inv_restart', 'lift_inv_recovered', 'c15_accounting_exact_after_recovery_of_crashInv', 'c15_accounting_exact_after_recovery_history_of_crashInv', 'c15_accounting_exact_after_recovery', 'c15_accounting_exact_after_recovery_history', 'c15_append_only_pinned_after_recovery', 'c08_gap_free_suffix_of_crashInv', 'c08_unlinks_oldest_first_of_crashInv', 'c08_index_entries_in_linked_chunks_of_crashInv', 'c08_unlink_only_after_purge_durable_of_crashInv', 'c08_flushed_idle_gone_of_crashInv', 'c08_clean_files_are_live_chunks_of_crashInv', 'c08_restarted_files_are_live_chunks', 'c08_recovered_files_are_live_chunks', 'lift_clean_holds_no_request', 'c04_positive_callback_means_durable_of_crashInv', 'ReachLIFT', 'lift_csys_keys', 'lift_reach_invariant', 'c11_journal_invariant_reach', 'c15_accounting_exact_reach', 'c08_flushed_idle_gone_reach', 'c04_positive_callback_means_durable_reach', 'liftUnsyncedExample', 'liftUnsyncedRestarted', 'liftUnsyncedMore', 'lift_restart_syncs_old_chunks', 'lift_c05Example_wf', 'lift_c05Example_inv', 'lift_csys_last', 'lift_c05Recovered_inv', 'liftRestarted', 'liftReachExample', 'lift_reach_c05Recovered', 'lift_reach_restarted', 'lift_reach_example', 'crashInv_clean_restart_LIFT', 'recover_cacheInv_LIFT', 'run_keys_LIFT'], gen=scripts_c08, project=proj_c08, oracle=oracle_c08,
                 explanation="chunk deletion", assumptions=OS_ASSUMPTIONS),
-    "C14": dict(modules=['C14', 'C14Busy'], theorems=['c14_worker_terminates_measure', 'c14_fuel_bound', 'c14_fuel_sufficient', 'c14_todoOK_reachable', 'c14_todoOK_invariant', 'c14_worker_terminates', 'c14_worker_terminates_any', 'c14_drop_state', 'c14_after_drop_nothing_moves', 'c14_drop_quiesces', 'c14_drop_none', 'c14_drop_quiesces_reachable', 'c14_drop_quiesces_system', 'c14_busy_drop_eq_idle_drop', 'c14_busy_drop_events', 'c14_busy_senderAlive', 'c14_busy_nothing_postponed', 'c14_busy_nothing_postponed_sync', 'c14_busy_postponed_invariant', 'c14_busy_restart_step', 'c14_busy_drop_then_open_idle', 'c14_busy_drop_then_open', 'c14_after_busy_drop_nothing_changes', 'c14_busy_refinement_continues', 'c14_busy_history_after_restart', 'c14_busy_failed_sync_needed'], gen=scripts_c14, project=proj_events, oracle=oracle_c14,
+    "C14": dict(modules=['C14', 'C14Busy'], theorems=['c14_worker_terminates_measure', 'c14_fuel_bound', 'c14_fuel_sufficient', 'c14_todoOK_reachable', 'c14_todoOK_invariant', 'c14_worker_terminates', 'c14_worker_terminates_any', 'c14_drop_state', 'c14_after_drop_nothing_moves', 'c14_drop_quiesces', 'c14_drop_none', 'c14_drop_quiesces_reachable', 'c14_drop_quiesces_system', 'c14_busy_drop_eq_idle_drop', 'c14_busy_drop_events', 'c14_busy_senderAlive', 'c14_busy_nothing_postponed', 'c14_busy_nothing_postponed_sync', 'c14_busy_postponed_invariant', 'c14_busy_restart_step', 'c14_busy_open_fs_unchanged_if_durable', 'c14_busy_drop_then_open_idle', 'c14_busy_drop_then_open', 'c14_after_busy_drop_nothing_changes', 'c14_busy_refinement_continues', 'c14_busy_history_after_restart', 'c14_busy_failed_sync_needed'], gen=scripts_c14, project=proj_events, oracle=oracle_c14,
                 explanation="drop quiesces", assumptions=OS_ASSUMPTIONS),
     "C07": dict(modules=["C07", "C07Trunc", "C07Restart"], theorems=['c07_refines_noCache', 'c07_refinesNoCache_step', 'c07_readInv_spec', 'c07_resident_or_on_disk', 'c07_boundary_written', 'c07_read_of_inv', 'c07_inv_fresh', 'c07_inv_call', 'c07_inv_flush', 'c07_inv_worker', 'c07_inv_workerIdle', 'c07_inv_drain', 'c07_inv_reachable', 'c07_reads_partial', 'c07_worker_steps_invisible', 'c07_cache_limits_invisible', 'c07t_appendsFresh_iff', 'c07t_readInv_spec', 'c07t_inv_fresh', 'c07t_inv_call', 'c07t_inv_truncate', 'c07t_inv_flush', 'c07t_inv_worker', 'c07t_inv_workerIdle', 'c07t_inv_drain', 'c07t_read_of_inv', 'c07t_resident_or_on_disk', 'c07t_inv_reachable', 'c07_reads_with_truncate', 'c07t_appendsFresh_of_noTruncate', 'c07_reads_partial_of_with_truncate', 'c07t_worker_steps_invisible', 'c07t_cache_limits_invisible', 'c07r_readInv_spec', 'c07r_inv_fresh', 'c07r_inv_call', 'c07r_inv_flush', 'c07r_inv_worker', 'c07r_inv_workerIdle', 'c07r_inv_drain', 'c07r_inv_history', 'c07r_read_of_inv', 'c07_clean_restart_keeps_read_invariant', 'c07_clean_restart_reads', 'c07r_after_restart_resident_or_on_disk', 'c07r_appendsFresh_cycles', 'c07r_inv_cycles', 'c07_reads_across_restarts', 'c07_reads_with_truncate_of_across_restarts', 'c07r_reopen_cfgs_invisible', 'c07r_crashReadInv_spec', 'c07r_crashReadInv_fresh', 'c07r_crashReadInv_history', 'c07_crash_recovery_keeps_read_invariant', 'c07_reads_after_crash_recovery', 'c07_reads_after_recovery_continue', 'c07_reads_across_restarts_from'], gen=scripts_c07, project=proj_c07, oracle=oracle_c07,
                 explanation="reads independent of cache/worker", assumptions=OS_ASSUMPTIONS),
-    "C02": dict(theorems=['c02_smApply_cache_free', 'c02_smApply_independent_of_cache', 'c02_replay_spec', 'c02_replay_fresh', 'c02_replay_call', 'c02_replay_flush', 'c02_replay_worker', 'c02_replay_workerIdle', 'c02_replay_drain', 'c02_replay_invariant', 'c02_linked_files', 'c02_restart_step', 'c02_clean_restart', 'c02_refinement_continues', 'c02_history_after_restart', 'c02_removed_needed', 'c02_cycles', 'c02_restart_refines', 'c02_cycles_refines'], gen=scripts_c02, project=proj_c02, oracle=oracle_c02,
+    "C02": dict(theorems=['c02_smApply_cache_free', 'c02_smApply_independent_of_cache', 'c02_replay_spec', 'c02_replay_fresh', 'c02_replay_call', 'c02_replay_flush', 'c02_replay_worker', 'c02_replay_workerIdle', 'c02_replay_drain', 'c02_replay_invariant', 'c02_linked_files', 'c02_syncAll_durable', 'c02_syncEvs_only', 'c02_restart_step', 'c02_clean_restart', 'c02_refinement_continues', 'c02_history_after_restart', 'c02_removed_needed', 'c02_cycles', 'c02_restart_refines', 'c02_cycles_refines'], gen=scripts_c02, project=proj_c02, oracle=oracle_c02,
                 explanation="clean restart equivalence", assumptions=OS_ASSUMPTIONS),
 })
 
